@@ -39,6 +39,11 @@ GEN_X86 = {
     "alt_ports": "\tvmulpd\t%ymm0, %ymm1, %ymm2\n\tvfmadd231pd\t%ymm2, %ymm3, %ymm4\n\tvdivpd\t%ymm4, %ymm5, %ymm6\n\timulq\t%rax, %rbx\n\tshlq\t$2, %rcx\n\tvmovapd\t(%rsi,%rax,8), %ymm7\n\tvmovapd\t%ymm7, (%rdi,%rax,8)\n\tcmpq\t%rax, %rcx\n\tjb\t.L1\n",
     "storeload": "\tvmovsd\t%xmm0, 8(%rax)\n\tvmovsd\t8(%rax), %xmm1\n\tvaddsd\t%xmm1, %xmm2, %xmm0\n\tmovq\t%rax, %rbx\n\tvmovsd\t(%rbx), %xmm3\n\taddq\t$8, %rax\n\tjne\t.L1\n",
     "empty_operands": "\tnop\n\tvzeroupper\n\tcltq\n\taddq\t$8, %rax\n\tjne\t.L1\n",
+    # no vector registers and hex displacements: BaseParser.detect_ISA takes it for AArch64 ('0x10' ~ 'x1'),
+    # so an analysis without --arch goes through the wrong-parser retry
+    "misdetected": "\tmovq\t0x10(%rsi,%rax,8), %rdx\n\taddq\t%rdx, %rcx\n\tmovq\t%rcx, 0x18(%rdi,%rax,8)\n\taddq\t$1, %rax\n\tcmpq\t%rax, %r8\n\tjne\t.L1\n",
+    # unparsable by both parsers: without --arch both attempts fail
+    "garbage": "\t@@@ ??? !!!\n\t)(*&^ %$#\n",
 }
 GEN_ARM = {
     "prepost": "\tldr\td0, [x1], #8\n\tldr\td1, [x2, #8]!\n\tstr\td0, [x3], #8\n\tldp\tq4, q5, [x9], #64\n\tstp\tq4, q5, [x10, #-32]!\n\tfadd\td2, d0, d1\n\tsubs\tx4, x4, #1\n\tb.ne\t.L1\n",
@@ -47,6 +52,8 @@ GEN_ARM = {
     "alt_ports": "\tfmul\tv0.2d, v1.2d, v2.2d\n\tfdiv\tv3.2d, v0.2d, v4.2d\n\tmul\tx1, x2, x3\n\tlsl\tx4, x5, #2\n\tfmadd\td5, d6, d7, d5\n\tmov\tx6, x7\n\tcmp\tx6, x8\n\tb.lt\t.L1\n",
     "sve": "\tld1d\t{z0.d}, p0/z, [x0, x3, lsl #3]\n\tfmla\tz1.d, p0/m, z0.d, z2.d\n\tst1d\t{z1.d}, p0, [x1, x3, lsl #3]\n\tincd\tx3\n\twhilelo\tp0.d, x3, x4\n\tb.first\t.L1\n",
     "depbreak": "\teor\tx0, x0, x0\n\tmovi\tv0.2d, #0\n\tfadd\td1, d0, d1\n\tadd\tx1, x1, #1\n\tb.ne\t.L1\n",
+    # a comment full of x86 register names: detect_ISA takes it for x86, the retry path parses it as AArch64
+    "misdetected": "\tldr\td0, [x1], #8\n\tfadd\td2, d0, d1\n\t// %xmm0 %xmm1 %xmm2 %xmm3 %xmm4 %xmm5\n\tsubs\tx4, x4, #1\n\tb.ne\t.L1\n",
 }
 
 
@@ -219,6 +226,16 @@ def gen_history(rng, configs, tier):
         elif r < 0.72:
             cand = [c for c in configs if c["label"] in ("wrong-isa",) or c["label"].startswith("gen:unknown")]
             nxt = rng.choice(cand) if cand else rng.choice(configs)
+        elif r < 0.79:
+            # default-architecture path twice in a row, the first one through the wrong-parser retry (or
+            # failing in both parsers)
+            first = [c for c in configs if c["arch"] is None and c["label"] in ("gen:misdetected", "gen:garbage")]
+            second = [c for c in configs if c["arch"] is None]
+            if first and second and len(h) + 2 <= n + 1:
+                h.append(rng.choice(first))
+                nxt = rng.choice(second)
+            else:
+                nxt = rng.choice(configs)
         elif r < 0.85:
             cand = [c for c in configs if c["label"].startswith("gen:")]
             nxt = rng.choice(cand)
